@@ -214,6 +214,38 @@ func runE3(p *an.Prog, r *an.Result) {
 		} else {
 			r.Bad(name, "cause is not the wrapped error", st.Pos(), "Cause() must return the error that was wrapped")
 		}
+		// what is kept as the cause is what the message was made from: a located error without
+		// position is looked through for both, or for neither
+		if ec := an.CallOf(fa.X); ec != nil && an.CallName(ec) == "parser.Errorf" && len(ec.Args) >= 3 {
+			var shown []ssa.Value
+			if sl, ok := ec.Args[len(ec.Args)-1].(*ssa.Slice); ok {
+				if al, ok := sl.X.(*ssa.Alloc); ok && al.Referrers() != nil {
+					for _, au := range *al.Referrers() {
+						if ia, ok := au.(*ssa.IndexAddr); ok {
+							shown = append(shown, an.Stores(ia)...)
+						}
+					}
+				}
+			}
+			strip := func(v ssa.Value) ssa.Value {
+				for {
+					switch x := v.(type) {
+					case *ssa.MakeInterface:
+						v = x.X
+					case *ssa.ChangeInterface:
+						v = x.X
+					default:
+						return v
+					}
+				}
+			}
+			same := len(shown) == 1 && strip(shown[0]) == strip(st.Val)
+			if same {
+				r.OK(name, "the cause kept is the error the message shows", st.Pos(), "one value feeds both the message and the cause field")
+			} else {
+				r.Bad(name, "the cause kept is not the error the message shows", st.Pos(), "the message is built from one error and Cause() returns another: after an unlocated inner error has been looked through, Cause() must be the underlying error, not the intermediate wrapper")
+			}
+		}
 		// the constructed error is what is returned
 	})
 	if stores == 0 {
@@ -412,6 +444,23 @@ func runD3(p *an.Prog, r *an.Result) {
 						}
 						if !isParam && !isMainPkg(fn) {
 							r.Bad(name, fmt.Sprintf("argument %d of %s is not the caller's bindings", i, cn), c.Pos(), "an entry point must hand its bindings on unchanged")
+						}
+					}
+					// scalars (path, starting line) are handed on as given: a parameter is not adjusted on the way
+					if bt, ok := a.Type().Underlying().(*types.Basic); ok && bt.Info()&(types.IsInteger|types.IsString) != 0 && !isMainPkg(fn) {
+						hasParam, adjusted := false, false
+						for _, o := range an.Origins(a, an.StepValue) {
+							switch o.(type) {
+							case *ssa.Parameter:
+								hasParam = true
+							case *ssa.Const:
+								adjusted = true // only counts if mixed with a parameter: a phi of the two
+							case *ssa.BinOp, *ssa.Call:
+								adjusted = true
+							}
+						}
+						if hasParam && adjusted {
+							r.Bad(name, fmt.Sprintf("argument %d of %s is an adjusted parameter", i, cn), c.Pos(), "an entry point hands its path and starting line on as given; clamping or computing them makes this entry point disagree with the others (error line numbers)")
 						}
 					}
 				}
